@@ -45,6 +45,134 @@ def I(*a):
     return [Sym("introspect"), *a]
 
 
+def T(*a):
+    return [Sym("toplevel"), *a]
+
+
+# =============================================================== token level (Model/TopLevel.v)
+KW_OF_NODE = {"SchemaDefinitionNode": "schema", "ScalarTypeDefinitionNode": "scalar", "ObjectTypeDefinitionNode": "type",
+              "InterfaceTypeDefinitionNode": "interface", "UnionTypeDefinitionNode": "union", "EnumTypeDefinitionNode": "enum",
+              "InputObjectTypeDefinitionNode": "input", "DirectiveDefinitionNode": "directive",
+              "SchemaExtensionNode": "schema", "ScalarTypeExtensionNode": "scalar", "ObjectTypeExtensionNode": "type",
+              "InterfaceTypeExtensionNode": "interface", "UnionTypeExtensionNode": "union", "EnumTypeExtensionNode": "enum",
+              "InputObjectTypeExtensionNode": "input"}
+
+
+def lex(text):
+    """graphql-core's token stream (comments skipped) in the model's alphabet; None if it does not lex."""
+    from graphql import GraphQLSyntaxError, Lexer, Source, TokenKind
+
+    m = {TokenKind.PAREN_L: "(", TokenKind.BRACE_L: "{", TokenKind.BRACKET_L: "[", TokenKind.PAREN_R: ")",
+         TokenKind.BRACE_R: ")", TokenKind.BRACKET_R: ")", TokenKind.AT: "@", TokenKind.AMP: "&", TokenKind.PIPE: "|",
+         TokenKind.EQUALS: "=", TokenKind.STRING: "s", TokenKind.BLOCK_STRING: "s"}
+    out = []
+    try:
+        lx = Lexer(Source(text))
+        while True:
+            t = lx.advance()
+            if t.kind == TokenKind.EOF:
+                return out
+            out.append([Sym("n"), t.value] if t.kind == TokenKind.NAME else m.get(t.kind, "o"))
+    except GraphQLSyntaxError:
+        return None
+
+
+def parser_split(text):
+    """graphql-core's own split of a type-system document: [(token count, ext, keyword, name)]; None if the text does
+    not parse or holds an executable definition."""
+    from graphql import GraphQLSyntaxError, TokenKind, parse
+
+    try:
+        doc = parse(text)
+    except GraphQLSyntaxError:
+        return None
+    out = []
+    for d in doc.definitions:
+        kind = type(d).__name__
+        if kind not in KW_OF_NODE:
+            return None
+        n, t = 0, d.loc.start_token
+        while True:
+            if t.kind != TokenKind.COMMENT:
+                n += 1
+            if t is d.loc.end_token:
+                break
+            t = t.next
+        kw = KW_OF_NODE[kind]
+        name = "schema" if kw == "schema" else ("@" if kw == "directive" else "") + d.name.value
+        out.append((n, "Extension" in kind, kw, name))
+    return out
+
+
+def tok_key(ts):
+    return [t if isinstance(t, str) else ("n", t[1]) for t in ts]
+
+
+def k2_tokens(run, texts, where):
+    """For the files of one load (in load order): lexing the join = concatenating the token streams, and the automaton
+    of Model/TopLevel.v cuts every document - each file and the join - where graphql-core's parser does."""
+    toks = [lex(t) for t in texts]
+    if any(t is None for t in toks):
+        return
+    joined = "\n".join(texts)
+    jt = lex(joined)
+    run.count()
+    if jt is None or tok_key(jt) != tok_key([x for t in toks for x in t]):
+        run.broken("K2 lex(join) != concat(lex)", json.dumps({"where": where, "texts": texts})[:1500])
+        return
+    docs = list(zip(texts, toks)) + [(joined, jt)]
+    res = model.batch(ENG, [T(Sym("split"), t) for _x, t in docs])
+    per_file = []
+    for (text, _t), r in zip(docs, res):
+        want = parser_split(text)
+        if want is None:
+            per_file.append(None)
+            continue
+        run.dist("toplevel_documents", "type-system document")
+        got = None if r[0] != "ok" else [(int(n), sm[0] == "t", sm[1], sm[2]) if sm != "none" else (int(n),) for n, sm in r[1]]
+        per_file.append(got)
+        if got != want:
+            run.broken("K2 Model/TopLevel.v splits a document differently from graphql-core's parser",
+                       json.dumps({"where": where, "text": text, "parser": want, "model": got})[:1800])
+            return
+    # the theorem's conclusion, observed on the real parser: join = concatenation
+    if all(p is not None for p in per_file[:-1]) and per_file[-1] is not None:
+        if [x for p in per_file[:-1] for x in p] != per_file[-1]:
+            run.broken("parse(join) is not the concatenation although every file is a type-system document",
+                       json.dumps({"where": where, "texts": texts})[:1500])
+        else:
+            run.dist("toplevel_documents", "join == concatenation (files)", len(texts))
+
+
+TRICKY_DOCS = [
+    "type type { input: enum }", "union union = type | input", "enum enum { type schema }", "scalar scalar @specifiedBy(url: \"x\")",
+    "directive @d(a: Int = 1 @x, b: [String!] = [\"type\"]) repeatable on FIELD | OBJECT", "directive @e on | QUERY",
+    "extend schema @a", "extend schema { mutation: M }", "extend union U = | A | B", "interface I implements & J & K { a: Int }",
+    "schema @d(x: {a: 1}) { query: Q }", '\"\"\"block\ndescription\"\"\" type T implements I @a @b(x: 1) { a(x: Int = 1): Int @c }',
+    "extend type T @d", "extend input In { a: Int = 1 }", '"d" directive @on on FIELD', "type implements implements on & repeatable",
+    "union extend = directive", "enum E @a { A @deprecated B }", "input on { on: on = on }", "extend interface I implements J",
+    "type Foo", "type Foo # trailing comment", "scalar S", "union U @a", "enum E", "input I", "interface I",
+]
+
+
+def k2_tricky_docs(ctx):
+    run, rng = ctx.run, ctx.rng
+    for _ in range(400 if ctx.thorough else 80):
+        k2_tokens(run, [rng.choice(TRICKY_DOCS) for _ in range(rng.randint(1, 5))], "tricky")
+    for d in TRICKY_DOCS:
+        k2_tokens(run, [d], "tricky-single")
+    # the hypothesis of the theorem is needed: a second "file" that is an executable document starting with `{`
+    # continues the body-less definition before it (replay of the Example C19_join_needs_documents on the real parser)
+    from graphql import parse
+
+    a, b = "type Foo", "{ a: b }"
+    real = [len(parse(x).definitions) for x in (a, b, a + "\n" + b)]
+    m = model.batch(ENG, [T(Sym("split"), lex(x)) for x in (a, b, a + "\n" + b)])
+    run.count()
+    if real != [1, 1, 1] or m[0][0] != "ok" or m[1][0] != "reject" or m[2][0] != "ok" or len(m[2][1]) != 1:
+        run.broken("hazard example (type Foo + { a: b })", f"parser {real}, model {m}")
+
+
 # =============================================================== encoders
 def enc_type(t):
     from graphql import GraphQLList, GraphQLNonNull
@@ -368,6 +496,7 @@ def k_loader(ctx, tmp):
                 run.broken("K2 parse(join) != concat of per-file definitions", json.dumps({**replay, "model": names_model, "real": names_real})[:1500])
             if nsel >= 2:
                 run.nontrivial_case(("tree", ci))
+            k2_tokens(run, [files[tuple(p)] for p in r_walk], "loader tree")
         shutil.rmtree(root, ignore_errors=True)
     # single file: no extension filter
     single = [("schema.txt", "type Q { a: Int }"), ("noext", "type Q { a: Int }"), ("bad.graphql", "type {"), ("e.gql", "")]
@@ -1018,6 +1147,8 @@ def inprocess_scenario(ctx, sc, tmp, si):
             entries.append(enc_entry(comps, False, text))
         entries += [enc_entry(d, True, "") for d in sorted(dirs)]
         run.count()
+        order = sorted(layout, key=lambda pl: pl[0].split("/"))
+        k2_tokens(run, ["\n".join(sc["defs"][j] for j in idxs) for _rel, idxs in order], "scenario layout")
         try:
             real = real_type_map(get_graphql_schema_from_path(root))
         except Exception as e:  # noqa
@@ -1125,6 +1256,7 @@ def run(ctx):
     tmp = tempfile.mkdtemp(prefix="c19-", dir="/var/tmp")
     try:
         k_suffix_and_order(ctx)
+        k2_tricky_docs(ctx)
         k_loader(ctx, tmp)
         k_headers(ctx)
         k_outcomes(ctx)
